@@ -23,7 +23,7 @@ import (
 
 type captured struct {
 	method, url, body string
-	header          http.Header
+	header            http.Header
 }
 
 // ctxBody behaves like a real transport's body: reading after the request context was cancelled fails.
@@ -91,13 +91,17 @@ func ctors() []ctor {
 	nobody := func(f func(api *network.SimpleAPIDef, tmpl string) network.APINoBody[reply]) func(api *network.SimpleAPIDef, tmpl string) func(network.PathParam, interface{}, *reply) *fpgo.MonadIODef[*network.APIResponse[reply]] {
 		return func(api *network.SimpleAPIDef, tmpl string) func(network.PathParam, interface{}, *reply) *fpgo.MonadIODef[*network.APIResponse[reply]] {
 			a := f(api, tmpl)
-			return func(pp network.PathParam, body interface{}, t *reply) *fpgo.MonadIODef[*network.APIResponse[reply]] { return a(pp, t) }
+			return func(pp network.PathParam, body interface{}, t *reply) *fpgo.MonadIODef[*network.APIResponse[reply]] {
+				return a(pp, t)
+			}
 		}
 	}
 	js := func(f func(api *network.SimpleAPIDef, tmpl string) network.APIHasBody[interface{}, reply]) func(api *network.SimpleAPIDef, tmpl string) func(network.PathParam, interface{}, *reply) *fpgo.MonadIODef[*network.APIResponse[reply]] {
 		return func(api *network.SimpleAPIDef, tmpl string) func(network.PathParam, interface{}, *reply) *fpgo.MonadIODef[*network.APIResponse[reply]] {
 			a := f(api, tmpl)
-			return func(pp network.PathParam, body interface{}, t *reply) *fpgo.MonadIODef[*network.APIResponse[reply]] { return a(pp, body, t) }
+			return func(pp network.PathParam, body interface{}, t *reply) *fpgo.MonadIODef[*network.APIResponse[reply]] {
+				return a(pp, body, t)
+			}
 		}
 	}
 	mp := func(f func(api *network.SimpleAPIDef, tmpl string) network.APIMultipart[reply]) func(api *network.SimpleAPIDef, tmpl string) func(network.PathParam, interface{}, *reply) *fpgo.MonadIODef[*network.APIResponse[reply]] {
@@ -110,8 +114,12 @@ func ctors() []ctor {
 		}
 	}
 	return []ctor{
-		{"APIMakeGet", "GET", "nobody", nobody(func(api *network.SimpleAPIDef, t string) network.APINoBody[reply] { return network.APIMakeGet[reply](api, t) })},
-		{"APIMakeDelete", "DELETE", "nobody", nobody(func(api *network.SimpleAPIDef, t string) network.APINoBody[reply] { return network.APIMakeDelete[reply](api, t) })},
+		{"APIMakeGet", "GET", "nobody", nobody(func(api *network.SimpleAPIDef, t string) network.APINoBody[reply] {
+			return network.APIMakeGet[reply](api, t)
+		})},
+		{"APIMakeDelete", "DELETE", "nobody", nobody(func(api *network.SimpleAPIDef, t string) network.APINoBody[reply] {
+			return network.APIMakeDelete[reply](api, t)
+		})},
 		{"APIMakeDoNewRequest(OPTIONS)", "OPTIONS", "nobody", nobody(func(api *network.SimpleAPIDef, t string) network.APINoBody[reply] {
 			return network.APIMakeDoNewRequest[reply](api, http.MethodOptions, t)
 		})},
@@ -127,9 +135,15 @@ func ctors() []ctor {
 		{"APIMakeDoNewRequestWithBodySerializer(PUT)", "PUT", "json", js(func(api *network.SimpleAPIDef, t string) network.APIHasBody[interface{}, reply] {
 			return network.APIMakeDoNewRequestWithBodySerializer[interface{}, reply](api, http.MethodPut, t, "application/json", api.RequestSerializerForJSON)
 		})},
-		{"APIMakePostMultipartBody", "POST", "multipart", mp(func(api *network.SimpleAPIDef, t string) network.APIMultipart[reply] { return network.APIMakePostMultipartBody[reply](api, t) })},
-		{"APIMakePutMultipartBody", "PUT", "multipart", mp(func(api *network.SimpleAPIDef, t string) network.APIMultipart[reply] { return network.APIMakePutMultipartBody[reply](api, t) })},
-		{"APIMakePatchMultipartBody", "PATCH", "multipart", mp(func(api *network.SimpleAPIDef, t string) network.APIMultipart[reply] { return network.APIMakePatchMultipartBody[reply](api, t) })},
+		{"APIMakePostMultipartBody", "POST", "multipart", mp(func(api *network.SimpleAPIDef, t string) network.APIMultipart[reply] {
+			return network.APIMakePostMultipartBody[reply](api, t)
+		})},
+		{"APIMakePutMultipartBody", "PUT", "multipart", mp(func(api *network.SimpleAPIDef, t string) network.APIMultipart[reply] {
+			return network.APIMakePutMultipartBody[reply](api, t)
+		})},
+		{"APIMakePatchMultipartBody", "PATCH", "multipart", mp(func(api *network.SimpleAPIDef, t string) network.APIMultipart[reply] {
+			return network.APIMakePatchMultipartBody[reply](api, t)
+		})},
 		{"APIMakeDoNewRequestWithMultipartSerializer(PATCH)", "PATCH", "multipart", mp(func(api *network.SimpleAPIDef, t string) network.APIMultipart[reply] {
 			return network.APIMakeDoNewRequestWithMultipartSerializer[reply](api, http.MethodPatch, t, api.RequestSerializerForMultipart)
 		})},
